@@ -92,6 +92,51 @@ def main():
                 print(json.dumps({"reproduced": True, "detail": f"kernel={kernel} blobs={blobs} support={support}: strategy {st} and {ref[0]} give different histories/weights/evidence for the same seed",
                                   "input": {"strategy": st, "kernel": kernel, "blobs": blobs, "support": support}}))
                 return
+    # calls stay exact across a checkpoint / resume (the resumed sampler's own counter counts the evaluations made after the restore)
+    import tempfile, os, shutil
+    tmp = tempfile.mkdtemp(prefix="c13_")
+    cwd = os.getcwd()
+    os.chdir(tmp)
+    try:
+        for st in ("serial", "pool=1", "vectorize"):
+            tried += 1
+            c1 = Counter(False)
+            kw = dict(n_dim=2, n_particles=24, random_state=5, output_dir=os.path.join(tmp, st))
+            mk = lambda c: (Sampler(pt, c.vec, vectorize=True, **kw) if st == "vectorize" else Sampler(pt, c.one, **(dict(kw, pool=1) if st == "pool=1" else kw)))
+            s1 = mk(c1)
+            s1.run(n_total=72, progress=False, save_every=2)
+            cks = sorted((f for f in os.listdir(kw["output_dir"]) if f.endswith(".state") and "final" not in f), key=lambda f: int(f.split("_")[1].split(".")[0]))
+            if not cks:
+                continue
+            mid = os.path.join(kw["output_dir"], cks[len(cks) // 2])
+            c2 = Counter(False)
+            s2 = mk(c2)
+            s2.load_state(mid)
+            before = int(s2.state.get_current("calls"))
+            n_before = c2.n
+            s2.run(n_total=72, progress=False, resume_state_path=mid)
+            after = int(s2.state.get_current("calls"))
+            if after - before != c2.n - n_before and after - before != c2.n:
+                print(json.dumps({"reproduced": True, "detail": f"{st}: after resuming from {os.path.basename(mid)} `calls` grew by {after - before} while the likelihood was evaluated at {c2.n} points",
+                                  "input": {"strategy": st, "probe": "resume"}}))
+                return
+        # the default number of particles is a function of n_dim only: every evaluation strategy runs the same problem
+        sizes = {}
+        for name, kw2 in (("serial", {}), ("pool=1", dict(pool=1)), ("pool=2", dict(pool=2)), ("pool=4", dict(pool=4)), ("pool=5", dict(pool=5)),
+                          ("pool-like", dict(pool=ShuffledPool()))):
+            tried += 1
+            try:
+                sizes[name] = int(Sampler(pt, Counter(False).one, n_dim=3, random_state=1, output_dir=os.path.join(tmp, "d"), **kw2)._core.config.n_particles)
+            except Exception as e:
+                print(json.dumps({"reproduced": True, "detail": f"construction with {name} raised {type(e).__name__}: {e}", "input": {"strategy": name}}))
+                return
+        if len(set(sizes.values())) != 1:
+            print(json.dumps({"reproduced": True, "detail": f"default n_particles depends on the evaluation strategy: {sizes} (n_dim=3): the strategies no longer run the same problem",
+                              "input": {"probe": "default-n_particles"}}))
+            return
+    finally:
+        os.chdir(cwd)
+        shutil.rmtree(tmp, ignore_errors=True)
     print(json.dumps({"reproduced": False, "tried": tried, "detail": "all strategies bit-identical; calls exact"}))
 
 
